@@ -99,7 +99,7 @@ Step(st, ins) ==
     [] op = "Load" -> IF ins.n + 1 <= Len(st.memory)
                       THEN Ok(PopPush(0, st.memory[ins.n + 1])) ELSE Rej
     [] op = "Publish" ->
-         CASE st.phase = "gamma" ->
+        (CASE st.phase = "gamma" ->
                 IF IsPat(0)
                 THEN Ok([PopOnly(1) EXCEPT !.memory = Append(@, Prf(E(0).p)),
                                            !.journal.axioms = Append(@, E(0).p)])
@@ -113,7 +113,7 @@ Step(st, ins) ==
                 IF IsPrf(0) /\ Len(st.claims) >= 1 /\ st.claims[Len(st.claims)] = E(0).p
                 THEN Ok([PopOnly(1) EXCEPT !.claims = SubSeq(@, 1, Len(@) - 1),
                                            !.journal.proved = Append(@, E(0).p)])
-                ELSE Rej
+                ELSE Rej)
     [] OTHER -> Rej          \* Unimplemented / unknown
 
 (* Phase switch: the stack is cleared, memory and claims persist.          *)
